@@ -10,7 +10,7 @@ RULE = ("correspondence: render (hook) and the bytes of the file compile_json wr
         "header_ok. A rejected module is a known finding iff the extracted good_names (hypothesis of "
         "C13_gen_wf_partial) is false for the shape / header_ok is false for the header, else a violation. "
         "oracle (thorough tier): real rustc via offline cargo check, one crate with one `mod mN { include!(..) }` per "
-        "case, (A) files as written, (B) header neutralised (`//!` -> `//`) to expose the item-level classes; rustc's "
+        "case, (A) files as written, (B) header neutralised (`//!` -> `//`; a no-op since fix F12) to expose the item-level classes; rustc's "
         "verdict per case must equal wf_module / wf_items. non-trivial = a shape of depth>=2; distinct = distinct shape")
 ASSUMPTIONS = ["member names restricted to printable ASCII for model correspondence; other names are judged by the Python "
                "check on the implementation's text only",
@@ -88,7 +88,11 @@ def run(ctx):
             if len(ctx.disagreements) < 50:
                 ctx.disagreements.append({"scope": "wf verdicts", "case": "gen_render\t" + ts[i],
                                           "model": {"wf_items_parsed": vi, "wf_items_predicted": vp}, "impl": probs[:5]})
-            continue
+            if vpy != vi:
+                continue        # the two judges of the REAL text disagree with each other: no verdict to act on
+            # both judges agree on the implementation's real text and only the model's prediction differs:
+            # the verdict on the real text stands and is judged below (a rejected module for a shape in the
+            # proved class is a concrete failing input, not just a broken correspondence)
         if g:
             stats["good_names_true"] += 1
         if vpy:
